@@ -6,7 +6,7 @@ import ast
 
 from .. import AnalysisError, flow
 from ..srcmodel import walk_local, norm, dotted, guards
-from . import common
+from . import common, forward
 from . import c12
 
 META = {
@@ -17,7 +17,7 @@ META = {
         "undefined ones - staged by the marker walk, and the hand-down chain "
         "of orig_desc / source / orig_index from PLSSDesc through PLSSParser "
         "to each Tract (counter from 0, +1 per tract)."),
-    'families': ['SIB', 'DEFUSE', 'RX-LANG', 'TBL'],
+    'families': ['SIB', 'DEFUSE', 'RX-LANG', 'TBL', 'FORWARD', 'DEADPARAM', 'SIB-DEFAULTS'],
 }
 
 ATTRS = ('trs', 'twp', 'twp_num', 'twp_ns', 'rge', 'rge_num', 'rge_ew', 'sec', 'sec_num',
@@ -91,6 +91,7 @@ def check(ctx):
     ctx.attempt(c12._siblings, t2d, ctx.repo.func('TRS.construct_trs'))
     ctx.attempt(_placeholders)
     ctx.attempt(_hand_down)
+    ctx.attempt(forward.check_all, module_suffixes=('plssdesc.plss_parse', 'plssdesc.plssdesc', 'tract.tract', 'trs.trs'))
 
 
 def _placeholders(ctx):
